@@ -3815,6 +3815,12 @@ class ISLaEmitter(IslaLanguageListener.IslaLanguageListener):
         formula_text = self.smt_expressions[ctx.sexpr()]
         formula_text = formula_text.replace(r"\"", '""')
 
+        # Z3's SMT-LIB parser reads its input byte-wise; non-ASCII characters have to be
+        # passed as \u{...} escapes to be understood as single characters.
+        formula_text = "".join(
+            char if ord(char) < 128 else "\\u{%x}" % ord(char) for char in formula_text
+        )
+
         # We have to replace XPath expressions in the formula, since they can break
         # the parsing (e.g., with `<a>[2]` indexed expressions).
         # for xpath_expr in self.vars_for_xpath_expressions:
